@@ -23,7 +23,9 @@ def make_cases(tier, seed):
         cases.append(gen.gen_history(r, 'c%05d' % i, **kw))
     # argument values outside what a file can express exactly - the document must stay well formed all the same:
     #  (x) record times whose tick count does not fit 63 bits (far future at a fine tick rate, time_t(-1)),
-    #  (z) parameter sets with ticks_per_second = 0: timed records are refused when they are buffered, nothing reaches the output half-written
+    #  (z) parameter sets with ticks_per_second = 0 (no time offset can be computed).
+    # Whether the library accepts, wraps or refuses such records is its choice (the model makes no prediction and exceptions are not judged);
+    # what is judged: every closed output is empty or one valid document with at least one block - nothing half-written
     nx = 160 if tier == 'quick' else 1500
     for i in range(nx):
         r = gen.seeded(seed, 'C02x', i)
@@ -33,6 +35,7 @@ def make_cases(tier, seed):
             for rec in recs:
                 if 'ts' in rec and r.random() < 0.6:
                     rec['ts'] = [min(2 ** 64 - 1, r.choice([2 ** 34, 2 ** 44, 2 ** 54, 2 ** 63, 2 ** 64 - 6, 9223372036, 18446744073, 2 ** 63 // 10 ** 6]) + r.randrange(0, 5)), rec['ts'][1]]
+        c['tolerant'] = True
         cases.append(c)
     for i in range(nx):
         r = gen.seeded(seed, 'C02z', i)
@@ -40,7 +43,9 @@ def make_cases(tier, seed):
         for k, bp in enumerate(pre['bps']):
             if k == 0 or r.random() < 0.5:
                 bp['tps'] = 0
-        cases.append(gen.gen_history(r, 'z%05d' % i, preamble=pre, nops=r.choice([6, 20, 50]), weights=dict(rotate=10, wb=10, dblock=8, setactive=10)))
+        c = gen.gen_history(r, 'z%05d' % i, preamble=pre, nops=r.choice([6, 20, 50]), weights=dict(rotate=10, wb=10, dblock=8, setactive=10))
+        c['tolerant'] = True
+        cases.append(c)
     return cases
 
 
@@ -69,7 +74,7 @@ def run(tier, seed):
         obs['present_but_empty_structures_submitted'] = empties
         obs['documents_parsed_strictly'] = sum(len(pc['docs']) for pc in er.per_case if pc)
         obs['histories_with_unrepresentable_record_times'] = sum(1 for c in cases if c['id'].startswith('x'))
-        obs['timed_records_refused_at_tick_rate_0'] = sum(1 for pc in er.per_case if pc for e in pc['exp'] if e.get('throws') and 'stored' in e)
+        obs['api_calls_that_threw_in_those_and_in_tick_rate_0_histories'] = sum(1 for pc in er.per_case if pc and pc['case'].get('tolerant') for e in pc['res']['log'] if 'exc' in e)
         nt = er.nontrivial(lambda pc: len(pc['docs']) >= 1)
         cov = dict(evaluations=len(cases), distinct_nontrivial=nt,
                    rule='seeded exporter API histories (buffer_*/write_block/dblock/rotate/addbp/setactive/destroy, all compressions, name+fd); '
